@@ -11,6 +11,15 @@ TRUST = ("Trusted: go/types + go/ssa of x/tools v0.50.0 (the program model), the
 
 # id -> (technique, level text, design ref)
 CLAIMS = {
+    "C01": ("lockset (guarded-by) analysis + path-cut guard chains + value provenance + type-level error tables + delegation shape",
+            "Decides per-operation atomicity (one critical section of the collection mutex at every access site), the precondition set and "
+            "its precedence before any effect, failed => untouched, the stated effects (version +1 / 1, creation time kept, deep copy stored, "
+            "published and persisted), classifiability of every error type, and transparency of every CoreState wrapper. "
+            "Full sequential correctness and cross-process real-time order are not decided.", "§3 C01"),
+    "C10": ("write-ahead path-cut on go/ssa + transaction-shape and error-propagation checks over the bolt store + load-gate cut",
+            "Decides, for every failure position, that memory/watchers never observe a write the backing store rejected and that an acknowledged "
+            "write went through one bbolt Update transaction first; that loading is gated and flagged only on success. "
+            "bbolt's own crash atomicity and reload equality are trusted / not decided.", "§3 C10"),
     "C07": ("path-cut (must-precede) analysis on go/ssa control-flow graphs",
             "Decides, for every path of every generic controller's reconcile code, the write-order clauses of the property "
             "(finalizer before output, destroy only when ready/empty, finalizer released only after destroy/handler success) "
